@@ -366,6 +366,9 @@ def dedup : List String → List String
   | [] => []
   | x :: r => if r.contains x then dedup r else x :: dedup r
 
+/-- the elements that may occur at most once in a glyph -/
+def onceOnly : List String := ["advance", "outline", "lib", "note", "image"]
+
 /-- all rules broken by the document, and whether something in it is not asserted either way -/
 def judge (d : Doc) : List String × Bool :=
   let (ver?, verOdd) := docVersion d
@@ -374,7 +377,7 @@ def judge (d : Doc) : List String × Bool :=
   | none => (dedup (g ++ (if verOdd then [] else ["version"])), verOdd)
   | some ver =>
     let per := merge (d.items.map (itemCheck rd ver))
-    let dups := ["advance", "outline", "lib", "note", "image"].filterMap fun n =>
+    let dups := onceOnly.filterMap fun n =>
       if countName d n.toList > 1 then some ("dup-" ++ n) else none
     let ids := if hasDup (docIdents d) then ["ident-dup"] else []
     (dedup (g ++ per.1 ++ dups ++ ids ++ objectLibsCheck d), per.2 || !d.trailer.isEmpty)
